@@ -787,6 +787,12 @@ type exch struct {
 	// TmpMode: environment of the client during the exchange: 0 as is, 1 TMPDIR=Tmp, 2 TMPDIR unset
 	TmpMode int    `json:"tmpdir_mode,omitempty"`
 	Tmp     string `json:"tmpdir,omitempty"`
+	// Tamper: what another party does to the directory the client created, after the
+	// reply was read and before the client's cleanup: "" nothing, "rm" removes it (the
+	// real server does), "fill" puts a file inside, "swap-symlink"/"swap-file" replace it
+	Tamper string `json:"tamper,omitempty"`
+	// NoFD: the client runs with no free file descriptor, so os.OpenRoot fails
+	NoFD bool `json:"no_fd,omitempty"`
 }
 
 type exchObs struct {
@@ -800,10 +806,49 @@ type exchObs struct {
 	nilRet     bool
 	panicked   bool
 	midTaken   bool
+	tampered   bool // the tampering was carried out (the directory existed)
+	fdStarved  bool // NoFD: descriptor exhaustion was in force before and after the client's mkdir step
 }
 
 var step1Kinds = []string{"ok", "split", "extra", "noeom-close", "close", "trunc-header", "trunc-body", "nonul", "emptymsg"}
 var step2Kinds = []string{"result0", "result-1", "result7", "close-noread", "partial-read-close", "read-close", "result-extra", "result-noeom-close", "result-short", "result-trunc", "stall-cancel", "result-early"}
+
+// starveFDs uses up every file descriptor number below a lowered RLIMIT_NOFILE, so
+// that any open() in the process fails with EMFILE; the returned function undoes it.
+func starveFDs() func() {
+	var old syscall.Rlimit
+	if syscall.Getrlimit(syscall.RLIMIT_NOFILE, &old) != nil {
+		return func() {}
+	}
+	var held []*os.File
+	top := 0
+	for i := 0; i < 64; i++ { // the kernel hands out the lowest free number: after a few opens there is no hole below top
+		f, err := os.Open(os.DevNull)
+		if err != nil {
+			break
+		}
+		held = append(held, f)
+		if fd := int(f.Fd()); fd > top {
+			top = fd
+		} else if i > 8 {
+			break
+		}
+	}
+	lim := old
+	lim.Cur = uint64(top + 1)
+	syscall.Setrlimit(syscall.RLIMIT_NOFILE, &lim)
+	done := false
+	return func() {
+		if done {
+			return
+		}
+		done = true
+		syscall.Setrlimit(syscall.RLIMIT_NOFILE, &old)
+		for _, f := range held {
+			f.Close()
+		}
+	}
+}
 
 func runExchange(w *world, e exch) (o exchObs, err error) {
 	withTmpdir(e.TmpMode, e.Tmp, func() { o, err = runExchangeEnv(w, e) })
@@ -823,6 +868,8 @@ func runExchangeEnv(w *world, e exch) (o exchObs, err error) {
 		err = os.WriteFile(e.PrePath, []byte("x"), 0o644)
 	case "symlink":
 		err = os.Symlink(w.sandbox+"/store", e.PrePath)
+	case "dangling":
+		err = os.Symlink(w.sandbox+"/none", e.PrePath)
 	}
 	if err != nil {
 		return o, fmt.Errorf("pre-state: %w", err)
@@ -831,6 +878,21 @@ func runExchangeEnv(w *world, e exch) (o exchObs, err error) {
 		defer os.Remove(e.PrePath)
 	}
 	s0 := w.snapshot()
+
+	restoreFD := func() {}
+	probeFD := func() bool { // true = no descriptor can be obtained
+		f, err := os.Open(os.DevNull)
+		if err == nil {
+			f.Close()
+			return false
+		}
+		return errors.Is(err, syscall.EMFILE)
+	}
+	if e.NoFD {
+		restoreFD = starveFDs()
+		defer restoreFD()
+		o.fdStarved = probeFD()
+	}
 
 	cp, sp := net.Pipe()
 	cconn := &addrConn{Conn: cp, remote: e.Peer.netAddr(), local: fakeAddr("127.0.0.1:40000")}
@@ -921,11 +983,34 @@ func runExchangeEnv(w *world, e exch) (o exchObs, err error) {
 		if len(d) == 8 && eom {
 			o.replyRead, o.reply = true, int64(binary.BigEndian.Uint64(d))
 		}
+		if e.NoFD {
+			o.fdStarved = o.fdStarved && probeFD()
+			restoreFD()
+		}
 		if e.Step2 != "result-early" {
 			s1 := w.snapshot()
 			o.mid, o.midDist = diff(s0, s1)
 			o.midInfo = s1
 			o.midTaken = true
+		}
+		if e.Tamper != "" && len(o.mid) == 1 && strings.HasPrefix(o.midInfo[o.mid[0]], "d") {
+			t := o.mid[0]
+			var terr error
+			switch e.Tamper {
+			case "rm":
+				terr = os.Remove(t)
+			case "fill":
+				terr = os.WriteFile(t+"/x", []byte("x"), 0o600)
+			case "swap-symlink":
+				if terr = os.Remove(t); terr == nil {
+					terr = os.Symlink(w.sandbox+"/store", t)
+				}
+			case "swap-file":
+				if terr = os.Remove(t); terr == nil {
+					terr = os.WriteFile(t, []byte("x"), 0o600)
+				}
+			}
+			o.tampered = terr == nil
 		}
 		switch e.Step2 {
 		case "result0":
@@ -966,6 +1051,7 @@ func runExchangeEnv(w *world, e exch) (o exchObs, err error) {
 	sp.Close()
 	cp.Close()
 	<-sdone
+	restoreFD()
 	o.nilRet = cerr == nil
 	s2 := w.snapshot()
 	o.after, o.afterDist = diff(s0, s2)
@@ -1044,6 +1130,10 @@ func judgeExchange(e exch, o exchObs) (key, msg string) {
 	if o.panicked {
 		return "client-panic", "the client panicked"
 	}
+	if e.Tamper == "fill" && o.tampered && len(o.after) == 1 && ok && o.after[0] == target && len(o.afterDist) == 0 && len(o.midDist) == 0 {
+		// the client rmdir's only; a directory somebody (with the client's uid, or root) filled stays
+		return "residue-directory-filled-before-cleanup", fmt.Sprintf("another party put a file into %q before the client's cleanup; the directory is still there after the exchange (%s/%s)", target, e.Step1, e.Step2)
+	}
 	if len(o.after) > 0 {
 		return "residue-after-exchange", fmt.Sprintf("after the exchange (%s/%s) these paths remain that did not exist before: %q", e.Step1, e.Step2, o.after)
 	}
@@ -1112,7 +1202,19 @@ func addExchange(c *core.Ctx, w *world, e exch) {
 	if o.replyRead {
 		reply = "(Some " + core.Z(o.reply) + ")"
 	}
-	c.AddCase(fmt.Sprintf("CExch %s %s %s %s %s %s %s %s %s", core.Bool(e.Remote), e.Peer.term(), sc, core.Bool(e.Pre == ""), core.Bool(reads), reply,
+	if e.NoFD && !o.fdStarved {
+		c.Count("exch-fd-starvation-not-in-force-case-dropped")
+		return
+	}
+	cs := "CsEmptyDir"
+	if o.tampered {
+		cs = map[string]string{"rm": "CsGone", "fill": "CsNonEmptyDir", "swap-symlink": "CsOtherObject", "swap-file": "CsOtherObject"}[e.Tamper]
+		c.Count("exch-tamper-" + e.Tamper)
+	}
+	if e.NoFD {
+		c.Count("exch-openroot-fails-no-descriptor")
+	}
+	c.AddCase(fmt.Sprintf("CExch %s %s %s %s %s %s %s %s %s %s %s", core.Bool(e.Remote), e.Peer.term(), sc, core.Bool(e.Pre == ""), core.Bool(!e.NoFD), cs, core.Bool(reads), reply,
 		pathsTerm(o.mid), pathsTerm(o.after), core.Bool(o.nilRet)), e)
 	c.Count("exch-step1-" + e.Step1)
 	if e.Step1 == "ok" || e.Step1 == "split" {
@@ -1142,6 +1244,8 @@ type scenario struct {
 	declared string
 	tmpMode  int
 	tmp      string
+	tamper   string
+	noFD     bool
 }
 
 func scenarios(w *world) []scenario {
@@ -1247,7 +1351,7 @@ func section_exchange(c *core.Ctx, w *world) {
 	mk := func(s scenario, s1, s2 string) exch {
 		u := uniq()
 		e := exch{Kind: "exch", Tok: w.tok, Name: s.name, Path: hx(s.path(u)), Remote: s.remote, Peer: s.peer, Step1: s1, Step2: s2, Pre: s.pre,
-			SetDeclared: s.setDecl, Declared: s.declared, TmpMode: s.tmpMode, Tmp: s.tmp}
+			SetDeclared: s.setDecl, Declared: s.declared, TmpMode: s.tmpMode, Tmp: s.tmp, Tamper: s.tamper, NoFD: s.noFD}
 		if s.pre != "" {
 			e.PrePath = s.path(u)
 		}
@@ -1262,6 +1366,30 @@ func section_exchange(c *core.Ctx, w *world) {
 				continue // rejected-path scenarios: every ending for a quarter of them, the three main endings for all
 			}
 			addExchange(c, w, mk(s, "ok", s2))
+		}
+	}
+	// other parties acting on the created directory before the client's cleanup; no free descriptor
+	for _, s := range scs {
+		switch s.name {
+		case "local-ok", "remote-ok", "addr-remote-ok":
+			for _, tm := range []string{"rm", "fill", "swap-symlink", "swap-file"} {
+				for _, s2 := range []string{"result0", "result-1", "read-close", "stall-cancel"} {
+					t := s
+					t.name, t.tamper = s.name+"+"+tm, tm
+					addExchange(c, w, mk(t, "ok", s2))
+				}
+			}
+			for _, s2 := range []string{"result0", "read-close", "close-noread"} {
+				t := s
+				t.name, t.noFD = s.name+"+no-free-descriptor", true
+				addExchange(c, w, mk(t, "ok", s2))
+			}
+		case "existing-symlink-at-target":
+			t := s
+			t.name, t.pre = "existing-dangling-symlink-at-target", "dangling"
+			for _, s2 := range []string{"result0", "result-1", "close-noread"} {
+				addExchange(c, w, mk(t, "ok", s2))
+			}
 		}
 	}
 	// first-step variants on accepted and rejected paths
